@@ -97,6 +97,31 @@ fn cmd_lift(v: &Value) -> Value {
     out
 }
 
+/// `fmt`: { "s": format string } -> real parse_format_string_parameters result; { "spec": "lf" } -> real Datatype::from + size
+fn cmd_fmt(v: &Value) -> Value {
+    use cwe_checker_lib::intermediate_representation::{Datatype, DatatypeProperties};
+    let props = DatatypeProperties {
+        char_size: ByteSize::new(1), double_size: ByteSize::new(8), float_size: ByteSize::new(4), integer_size: ByteSize::new(4),
+        long_double_size: ByteSize::new(16), long_long_size: ByteSize::new(8), long_size: ByteSize::new(8), pointer_size: ByteSize::new(8), short_size: ByteSize::new(2),
+    };
+    if let Some(spec) = v["spec"].as_str() {
+        let spec = spec.to_string();
+        return match catch_unwind(AssertUnwindSafe(|| Datatype::from(spec))) {
+            Ok(dt) => {
+                let promoted = if matches!(dt, Datatype::Char) { props.get_size_from_data_type(Datatype::Integer) } else { props.get_size_from_data_type(dt.clone()) };
+                json!({"datatype": format!("{:?}", dt), "size": u64::from(promoted)})
+            }
+            Err(p) => json!({"panic": panic_msg(p)}),
+        };
+    }
+    let s = v["s"].as_str().unwrap();
+    match catch_unwind(AssertUnwindSafe(|| cwe_checker_lib::utils::arguments::parse_format_string_parameters(s, &props))) {
+        Ok(Ok(list)) => json!({"ok": list.iter().map(|(d, sz)| json!([format!("{:?}", d), u64::from(*sz)])).collect::<Vec<_>>()}),
+        Ok(Err(_)) => json!({"rejected": true}),
+        Err(p) => json!({"panic": panic_msg(p)}),
+    }
+}
+
 fn main() {
     let args: Vec<String> = std::env::args().collect();
     let cmd = args.get(1).map(|s| s.as_str()).unwrap_or("");
@@ -118,6 +143,7 @@ fn main() {
         };
         let r = match cmd {
             "domain" => catch_unwind(AssertUnwindSafe(|| domain::cmd_domain(&v))).unwrap_or_else(|p| json!({"panic": panic_msg(p)})),
+            "fmt" => catch_unwind(AssertUnwindSafe(|| cmd_fmt(&v))).unwrap_or_else(|p| json!({"panic": panic_msg(p)})),
             "lift" => catch_unwind(AssertUnwindSafe(|| cmd_lift(&v))).unwrap_or_else(|p| json!({"panic": panic_msg(p)})),
             "optimize" => catch_unwind(AssertUnwindSafe(|| cmd_optimize(&v))).unwrap_or_else(|p| json!({"panic": panic_msg(p)})),
             _ => json!({"error": "unknown command"}),
